@@ -48,9 +48,15 @@ func canonFor(s string) string {
 }
 
 // canonUntil renders the value of _watermill_delayed_until: t<unix sec> iff it is exactly the UTC RFC 3339 rendering of that second.
+// A rendering in a zone east/west of UTC (suffix +hh:mm / -hh:mm) is t<unix sec>@<offset seconds>: the instant plus the
+// zone it is written in, so that the token still determines the string.
 func canonUntil(s string) string {
-	if t, err := time.Parse(time.RFC3339, s); err == nil && t.UTC().Format(time.RFC3339) == s {
-		return "t" + i64(t.Unix())
+	if t, err := time.Parse(time.RFC3339, s); err == nil && t.Format(time.RFC3339) == s {
+		if _, off := t.Zone(); off != 0 {
+			return "t" + i64(t.Unix()) + "@" + i64(int64(off))
+		} else if strings.HasSuffix(s, "Z") {
+			return "t" + i64(t.Unix())
+		}
 	}
 	return "x" + wh.HexS(s)
 }
@@ -77,9 +83,17 @@ func rawOf(tok string) (string, bool) {
 		}
 		return time.Duration(n).String(), true
 	case 't':
-		n, err := strconv.ParseInt(tok[1:], 10, 64)
+		p := strings.SplitN(tok[1:], "@", 2)
+		n, err := strconv.ParseInt(p[0], 10, 64)
 		if err != nil {
 			panic("bad token " + tok)
+		}
+		if len(p) == 2 {
+			z, err := strconv.ParseInt(p[1], 10, 64)
+			if err != nil {
+				panic("bad token " + tok)
+			}
+			return time.Unix(n, 0).In(time.FixedZone("", int(z))).Format(time.RFC3339), true
 		}
 		return time.Unix(n, 0).UTC().Format(time.RFC3339), true
 	}
